@@ -181,7 +181,11 @@ def lower_body(body, cls=None, methods=(), members=(), objs=None, ptr_objs=None,
             if members and n not in members:
                 return m.group(0)
             return 'this->' + n
-        b = _sub(log, 'R1 member', r'(?<![\w>.])(?<!->)\b([a-z]\w*_)\b(?!\s*\()', member, b)
+        if members:     # explicit member list (classes that do not follow the trailing-underscore convention)
+            alt = '|'.join(sorted((re.escape(x) for x in members), key=len, reverse=True))
+            b = _sub(log, 'R1 member', r'(?<![\w>.])(?<!->)\b(' + alt + r')\b(?!\s*\()', member, b)
+        else:
+            b = _sub(log, 'R1 member', r'(?<![\w>.])(?<!->)\b([a-z]\w*_)\b(?!\s*\()', member, b)
 
         # R11 virtual calls through the child/parent link, R1 the links themselves (not inside class PDU itself,
         # whose own bodies of these accessors are what C12 puts under contract)
